@@ -1,8 +1,7 @@
 (* The copier's selection side never fails on a type-compatible destination: every source path
    that exists in the destination has the same kind (directory / non-directory) there.  In
-   particular a mkdir / create never misses its parent directory (ENoParent) and the lstat at the
-   top of copier.copy never meets a non-directory (ENotDir): creating parents on demand is
-   enough.  Independent of the patterns and of the matcher. *)
+   particular a mkdir / create never misses its parent directory (ENoParent): creating parents on
+   demand is enough.  Independent of the patterns and of the matcher. *)
 From Coq Require Import List NArith Lia Bool.
 From FS Require Import Sx Model.Path Model.Stat Model.Tree Model.Pattern Model.FilterWalk Model.CopierSel
   Proofs.Lex Proofs.PathP Proofs.PatternP Proofs.FilterP Proofs.FlatRefP Proofs.CopySelP Proofs.CopySelThmP.
@@ -126,13 +125,6 @@ Proof. unfold exist_all, exist_copied, mark. intros H. apply Forall_map. eapply 
 
 Lemma exist_all_mark S fs : exist_all S fs -> exist_all (mark S) fs.
 Proof. unfold exist_all, mark. intros H. apply Forall_map. eapply Forall_impl; [|exact H]. intros d Hd. exact Hd. Qed.
-
-Lemma enotdir_false S fs : items_ok S -> compat fs -> enotdir S fs = false.
-Proof.
-  intros HI HG. induction S as [|d r IH]; [reflexivity|]. inversion HI as [|? ? [Hin Hd] Hr]; subst.
-  cbn [enotdir]. destruct (fs (st_path (pd_st d))) as [o|] eqn:E; [|reflexivity].
-  rewrite (HG (pd_st d, pd_ct d) o Hin E). cbn [fst]. rewrite Hd. apply IH. exact Hr.
-Qed.
 
 Lemma copy_dir_only_ok dirp st ct fs :
   In (st, ct) all -> st_is_dir st = true -> compat fs -> parent_ok dirp fs = true ->
@@ -264,7 +256,6 @@ Proof.
   intros Hwfn dir pinc pexc S fs fs' S' em err H Hall HI.
   apply wf_tree_node_inv in Hwfn. destruct Hwfn as (Hne & Hns & Hdk & _ & Hkids).
   rewrite copy_node_eq in H. cbv zeta in H.
-  rewrite (enotdir_false S fs (inv_items _ _ _ HI) (inv_compat _ _ _ HI)) in H.
   set (p := child_path dir name) in *.
   set (incl := fst (sel_inc pmatch c p pinc) && negb (fst (sel_exc pmatch c p pexc))) in *.
   assert (Hself : In (set_path st0 p, ct) all) by (apply Hall; rewrite walk_node_eq; left; reflexivity).
